@@ -99,6 +99,8 @@ pub struct Run {
     pub shapes: BTreeMap<Vec<u8>, Option<(usize, usize, usize)>>,
     pub consts: String,
     pub peaks: BTreeMap<String, (usize, usize)>,
+    /// first panic message / largest allocation per reported-only decoder
+    pub notes: BTreeMap<String, String>,
 }
 
 impl Run {
@@ -244,6 +246,7 @@ fn main() {
         shapes: BTreeMap::new(),
         consts: objects::col_consts(),
         peaks: BTreeMap::new(),
+        notes: BTreeMap::new(),
     };
     let objs = objects::Objects::build(&mut run);
     sweeps::run_points(&mut run, &objs);
@@ -259,5 +262,7 @@ fn main() {
         .map(|(k, v)| (k.clone(), json!({"peak_bytes": v.0, "input_len": v.1})))
         .collect::<serde_json::Map<_, _>>();
     run.ctx.set_extra("peak_allocation_per_decoder", serde_json::Value::Object(peaks));
+    let notes = run.notes.iter().map(|(k, v)| (k.clone(), json!(v))).collect::<serde_json::Map<_, _>>();
+    run.ctx.set_extra("reported_only_samples", serde_json::Value::Object(notes));
     run.ctx.finish();
 }
